@@ -174,3 +174,16 @@ def onWire (untouched : Bool) (request : List UInt8) : Option (List UInt8) :=
   if untouched then some request else none
 
 end Uhppote.Model.Driver
+
+namespace Uhppote.Model.Driver
+
+/-! ### a TCP connection that takes time to establish (C09) -/
+
+/-- when a TCP call that connected after `connect` ms and was then never answered returns, counted from
+    the moment the port was acquired: the one deadline computed then covers dial AND exchange when it is
+    the value handed to both; a deadline recomputed after the connect starts a second timeout -/
+def tcpStallReturn (singleDeadline : Bool) (T connect : Nat) : Nat :=
+  if connect ≥ T then T                       -- the dial itself runs into the deadline
+  else if singleDeadline then T else connect + T
+
+end Uhppote.Model.Driver
